@@ -1,5 +1,5 @@
 import ALV.Common.Json
-import ALV.Model.C19Float
+import ALV.Model.C19Src
 /-!
   C19 driver, float entries: binary64 values travel as their 64-bit patterns (JSON integers), so
   that `-0.0`, denormals, inf and nan survive the transport and the comparison is bit for bit.
@@ -37,14 +37,14 @@ def handle (entry : String) (j : Json) : Except String Json := do
     let m ← getArgF (← field j "modulo")
     let s ← getArgF (← field j "step")
     let n ← getNat (← field j "n")
-    pure <| Json.mkObj (runJson (mcG o a m s n) ++ [("branch", Json.str (mcBranchG o a m s))])
+    pure <| Json.mkObj (runJson (mcNow o a m s n) ++ [("branch", Json.str (mcBranchG o a m s))])
   | "sin_float" =>
     -- `sinusoid(freq, phase)`: the counter `modulo_counter(phase, 2*pi, freq)` and its sines
     let twoPi ← getF (← field j "two_pi")
     let f ← getArgF (← field j "freq")
     let p ← getArgF (← field j "phase")
     let n ← getNat (← field j "n")
-    let r := mcG o p (.num twoPi) f n
+    let r := mcNow o p (.num twoPi) f n
     pure <| Json.mkObj (runJson r ++ [("sin", arr bitsJson (r.1.map Float.sin)),
                                       ("branch", Json.str (mcBranchG o p (.num twoPi) f))])
   | "line_float" =>
@@ -77,7 +77,7 @@ def handle (entry : String) (j : Json) : Except String Json := do
     let d ← getF (← field j "d")
     let s ← getArgF (← field j "s")
     let n ← getNat (← field j "n")
-    pure <| Json.mkObj (runJson (attackG o a d s n))
+    pure <| Json.mkObj (runJson (attackNow o a d s n))
   | "table_float" =>
     let tbl ← getList getF (← field j "table")
     let den ← getF (← field j "den")
